@@ -314,9 +314,16 @@ func RunSchedules(c *Ctx, scs []*SScenario, plan SPlan, rep *Report) {
 	}
 }
 
+// relevant: a race report belongs to the property when one of the functions the property anchors is the
+// innermost library function of an access, or — for reports both of whose accesses lie in the library —
+// appears anywhere in the two access stacks (closures and helpers called by an anchored function).
 func relevant(r RaceReport, funcs []string) bool {
+	lib := !strings.HasPrefix(r.Pair[0], "app:") && !strings.HasPrefix(r.Pair[1], "app:")
 	for _, f := range funcs {
 		if strings.Contains(r.Pair[0], f) || strings.Contains(r.Pair[1], f) {
+			return true
+		}
+		if lib && strings.Contains(r.Text, "."+f) {
 			return true
 		}
 	}
